@@ -157,13 +157,13 @@ Proof.
   - pose proof (cat_uuid_nonzero ci) as Hnz. apply N.eqb_neq in Hnz. rewrite Hnz. cbn [andb].
     unfold route_to_category. rewrite Hnz. cbn [embed_base b_categories]. rewrite find_embedded.
     destruct (nth_error (Engine.rt_cats rt) ci) as [c|]; [|reflexivity].
-    cbn [c_exit]. destruct (b_result_name _); reflexivity.
+    unfold route_via. cbn [c_exit]. destruct (b_result_name _); reflexivity.
   - rewrite N.eqb_refl. cbn [andb]. unfold embed_default.
     destruct (Engine.rt_default rt) as [ci|].
     + pose proof (cat_uuid_nonzero ci) as Hnz. apply N.eqb_neq in Hnz. rewrite Hnz. cbn [negb].
       unfold route_to_category. rewrite Hnz. cbn [embed_base b_categories]. rewrite find_embedded.
       destruct (nth_error (Engine.rt_cats rt) ci) as [c|]; [|reflexivity].
-      cbn [c_exit]. destruct (b_result_name _); reflexivity.
+      unfold route_via. cbn [c_exit]. destruct (b_result_name _); reflexivity.
     + rewrite N.eqb_refl. cbn [negb]. reflexivity.
 Qed.
 
